@@ -52,7 +52,13 @@ pub fn suite_qualmap(ctx: &Ctx, thorough: bool) {
     // keys chosen so that prefixes, case variants, upper-case-then-digit, and every ordering-relevant character class
     // ('-' '.' digit '_' letter) meet each other
     let keys: Vec<&str> = if thorough { vec!["a", "A", "ab", "a_b", "a.b", "A1", "a-b", "b", "B", "", "!", "é", "a b", "Ab=c"] } else { vec!["a", "A", "ab", "a_b", "a.b", "A1", "", "!", "é", "Ab=c"] };
-    let vals: Vec<&str> = vec!["", "x", "y"];
+    qualmap_explore(ctx, thorough, keys, vec!["", "x", "y"], true);
+    // the collection knows nothing about the MEANING of a key: the well-known keys, with values in upper case, with blanks around
+    // them, are stored and returned verbatim like any other
+    qualmap_explore(ctx, thorough, vec!["checksum", "Checksum", "vcs_url", "c"], vec!["", "SHA1:AB", " v ", "sha1:ab"], false);
+}
+
+fn qualmap_explore(ctx: &Ctx, thorough: bool, keys: Vec<&str>, vals: Vec<&str>, scale: bool) {
     let valid = |k: &str| refimpl::valid_key(k);
     let mut seen: BTreeSet<Vec<(String, String)>> = BTreeSet::new();
     let mut queue: VecDeque<Vec<(String, String)>> = VecDeque::new();
@@ -61,7 +67,7 @@ pub fn suite_qualmap(ctx: &Ctx, thorough: bool) {
     // SCALE: large contents (many keys, long keys, long values) go through the same operation block; their successors are
     // not explored further, and the probing keys are taken from the content itself (first, middle, last, case variant, absent ones)
     for n in thresholds(thorough) {
-        if n > 1100 || n < 9 { continue; }
+        if n > 1100 || n < 9 || !scale { continue; }
         queue.push_back((0..n).map(|i| (format!("k{i:05}"), format!("v{i}"))).collect());
         queue.push_back((0..9).map(|i| (format!("{}{i}", inflate("a", n)), inflate("V", n))).collect());
         queue.push_back((0..n).map(|i| (format!("{}{i:05}", ["a-", "a.", "a_", "a0", "aa"][i % 5]), String::from("w"))).collect::<BTreeMap<_, _>>().into_iter().collect());
@@ -753,7 +759,7 @@ impl FromStr for Shape {
     }
 }
 
-pub const HOOKS: u8 = 11;
+pub const HOOKS: u8 = 12;
 impl PurlShape for Shape {
     type Error = ShapeErr;
     fn package_type(&self) -> Cow<str> { Cow::Borrowed(&self.ty) }
@@ -773,7 +779,9 @@ impl PurlShape for Shape {
             // blanks the checksum: an empty value, removed by the generic checks BEFORE the checksum is looked at
             9 => { parts.qualifiers.insert("checksum", "").unwrap(); },
             // a checksum whose algorithm name has a non-ASCII capital only: canonicalised like any other
-            _ => { parts.qualifiers.insert("checksum", "\u{3a3}1:AA,b:00").unwrap(); },
+            10 => { parts.qualifiers.insert("checksum", "\u{3a3}1:AA,b:00").unwrap(); },
+            // namespace and subpath with slashes at the ends: the generic checks do not touch them
+            _ => { parts.namespace = "/team".into(); parts.subpath = "docs/".into(); },
         }
         Ok(())
     }
@@ -825,6 +833,7 @@ pub fn suite_protocol(ctx: &Ctx, thorough: bool) {
                     8 => o.qualifiers.is_empty(),
                     9 => p.qualifiers().get("checksum").is_none(),
                     10 => p.qualifiers().get("checksum") == Some("b:00,\u{3c3}1:aa"),
+                    11 => o.namespace.as_deref() == Some("/team") && o.subpath.as_deref() == Some("docs/"),
                     _ => true,
                 };
                 if !ok { ctx.violate("C14.post", "what the hook writes is what the PURL reports, after the generic checks", inp(), format!("{o:?}"), format!("hook {hook}")); }
@@ -832,7 +841,7 @@ pub fn suite_protocol(ctx: &Ctx, thorough: bool) {
             } else if f == 1 {
                 let ok = match hook { 2 => matches!(&r, Err(ShapeErr::Parse(m)) if m.contains("Name")), 6 => matches!(&r, Err(ShapeErr::Parse(m)) if m.contains("InvalidQualifier") || m.contains("Name")),
                     // a hook that only adds empty values, clears the list or blanks the checksum cannot turn an accepted string into a refused one
-                    4 | 8 | 9 | 10 => !matches!(&generic, Ok(Ok(_))),
+                    4 | 8 | 9 | 10 | 11 => !matches!(&generic, Ok(Ok(_))),
                     _ => true };
                 if !ok { ctx.violate("C14.post", "an emptied name / malformed checksum from the hook is refused with the generic error", inp(), format!("{r:?}"), "Parse(..)".into()); }
             }
